@@ -43,15 +43,27 @@ pub struct Ev {
     pub notes: BTreeMap<String, J>,
     /// distinct non-trivial cases counted by the check itself (e.g. per-FST distinct probes), added to fps.len()
     pub distinct_extra: u64,
+    /// worker threads of `Ctx::par` interleave their judged operations with unrelated library use
+    pub noise_on: bool,
+    pub since_noise: u64,
 }
 
 impl Ev {
     pub fn new() -> Ev {
-        Ev { evaluations: 0, fps: HashSet::new(), counters: BTreeMap::new(), samples: vec![], violations: vec![], nviol: 0, notes: BTreeMap::new(), distinct_extra: 0 }
+        Ev { evaluations: 0, fps: HashSet::new(), counters: BTreeMap::new(), samples: vec![], violations: vec![], nviol: 0, notes: BTreeMap::new(), distinct_extra: 0, noise_on: false, since_noise: 0 }
     }
     /// one oracle evaluation; `fp` = fingerprint if the case is non-trivial by the check's rule
     pub fn eval(&mut self, fp: Option<u64>) {
         self.evaluations += 1;
+        // interleave the judged work of this thread with unrelated library use (see build::history_noise)
+        if self.noise_on {
+            self.since_noise += 1;
+            if self.since_noise >= 4093 {
+                self.since_noise = 0;
+                crate::build::history_noise(self.evaluations as usize);
+                *self.counters.entry("history:noise-rounds-between-judged-operations".to_string()).or_insert(0) += 1;
+            }
+        }
         if let Some(fp) = fp {
             // cap memory: beyond 4M distinct fingerprints keep counting evaluations only
             if self.fps.len() < 4_000_000 {
@@ -163,6 +175,9 @@ impl Ctx {
                         .stack_size(256 << 20)
                         .spawn_scoped(sc, move || {
                             let mut ev = Ev::new();
+                            ev.noise_on = true;
+                            // every worker thread starts with a history (see build::history_noise)
+                            crate::build::history_noise(i);
                             if let Err(msg) = guard(|| f(i, n, &mut ev)) {
                                 ev.violate("panic", format!("panic in shard {}: {}", i, msg), J::s(msg.clone()));
                             }
